@@ -5,7 +5,7 @@
    app's genesis stores.  The model follows /repo as of commit 458669b (sender == recipient refused);
    nothing below carries a "no self-transfer" guard any more. *)
 From Coq Require Import ZArith List Bool.
-From FxV Require Import lib.Dec model.M_Shares proofs.P_Shares.
+From FxV Require Import lib.Dec model.M_Shares gen.Gen_C11 proofs.P_Shares.
 Import ListNotations.
 Open Scope Z_scope.
 
@@ -67,8 +67,8 @@ Print Assumptions C11_self_transfer_from.
       (transfer_shares_prefix = handlerTransferShares before commit 458669b, without the guard) — not a
       statement about the current model: sending oneself 40 shares created 40 shares. *)
 Theorem C11_prefix_self_transfer_witness :
-  exists vs vs', get_val 0 wit_pre = Some vs /\
-    transfer_shares_prefix (s_height wit_pre) false 0 0 40 vs = Ok vs' /\
+  exists vs vs' pf pt, get_val 0 wit_pre = Some vs /\
+    transfer_shares_prefix (s_height wit_pre) false 0 0 40 vs = Ok (vs', pf, pt) /\
     dget 0 vs = dec_of_int (100 * prec) /\
     dget 0 vs' = dec_of_int (100 * prec) + dec_of_int 40 /\
     v_shares vs' = dec_of_int (200 * prec) /\
@@ -78,9 +78,13 @@ Print Assumptions C11_prefix_self_transfer_witness.
 
 (* 4. after ANY list of operations (sender == recipient included), from genesis: the per-validator
       invariant (delegations sorted and non-negative and summing to the validator's shares, a starting
-      info exactly for every delegation, the reference-count equation, period bounds, tokens >= 0). *)
+      info exactly for every delegation, the reference-count equation, period bounds, tokens >= 0,
+      0 <= undistributed rewards <= outstanding rewards).  Operations include reward-carrying blocks,
+      slashing for current and past infraction heights (unbonding and redelegation entries slashed,
+      redelegated shares unbonded at the destination), jailing / unjailing and the validator leaving and
+      re-entering the bonded set. *)
 Theorem C11_invariant : forall n ops, Forall VInv (s_vals (run (gen_state n) ops)).
-Proof. intros n ops. apply (run_inv ops (gen_state n) (gen_state_inv n)). Qed.
+Proof. intros n ops. apply (proj1 (run_inv ops (gen_state n) (gen_state_inv n))). Qed.
 Print Assumptions C11_invariant.
 
 Theorem C11_sum_shares : forall n ops v vs,
@@ -103,10 +107,11 @@ Theorem C11_start_iff_delegation : forall n ops v vs a,
 Proof. exact start_iff_delegation. Qed.
 Print Assumptions C11_start_iff_delegation.
 
-(* 6. the bookkeeping never blocks a delegator from withdrawing *)
+(* 6. the bookkeeping never blocks a delegator from withdrawing; the only thing that can is the SDK's own
+      sanity check inside CalculateDelegationRewards (calc_ok: it returns a value) *)
 Theorem C11_withdraw_live : forall n ops v vs a d,
   let s := run (gen_state n) ops in
-  get_val v s = Some vs -> kget a (v_dels vs) = Some d -> 0 < d ->
+  get_val v s = Some vs -> kget a (v_dels vs) = Some d -> 0 < d -> calc_ok (s_height s) a vs ->
   snd (step s (Withdraw v a)) = true.
 Proof. exact withdraw_live. Qed.
 Print Assumptions C11_withdraw_live.
@@ -117,6 +122,7 @@ Theorem C11_undelegate_live : forall n ops v vs a d amt sh,
   let s := run (gen_state n) ops in
   get_val v s = Some vs -> kget a (v_dels vs) = Some d -> 0 < d ->
   0 < amt -> validate_unbond a amt vs = Ok sh -> ubd_entries a v s < max_entries ->
+  calc_ok (s_height s) a vs ->
   snd (step s (Undelegate v a amt)) = true.
 Proof. exact undelegate_live. Qed.
 Print Assumptions C11_undelegate_live.
@@ -126,11 +132,58 @@ Theorem C11_failed_call_no_effect : forall s o s', step s o = (s', false) -> s' 
 Proof. exact failed_call_no_effect. Qed.
 Print Assumptions C11_failed_call_no_effect.
 
+(* 8. rewards: a transfer pays the sender exactly what a withdrawal on the pre-state pays and the recipient
+      only if it had a delegation; both amounts come out of the validator's outstanding rewards, which
+      stay >= 0 (rounding only ever leaves coins in the pool); afterwards nothing is pending for either
+      party and no undistributed rewards are left behind *)
+Theorem C11_transfer_rewards : forall s s' v from to x,
+  SInv s -> exec s (Transfer v from to x) = Ok s' -> transfer_rewards_spec s s' v from to.
+Proof. exact transfer_rewards. Qed.
+Print Assumptions C11_transfer_rewards.
+
+Theorem C11_transfer_from_rewards : forall s s' v spender from to x,
+  SInv s -> exec s (TransferFrom v spender from to x) = Ok s' -> transfer_rewards_spec s s' v from to.
+Proof. exact transfer_from_rewards. Qed.
+Print Assumptions C11_transfer_from_rewards.
+
+(*    ... and the recipient's entitlement is neither lost nor duplicated: the reward computed for it after
+      the sender's withdrawal (the first thing a transfer does) is the reward computed on the state before
+      the transfer (stake x (cumulative ratio[end] - ratio[start]) across the slash events, before clipping
+      to the pot and truncation) *)
+Theorem C11_recipient_entitlement : forall h from to v v1 pf,
+  VInv v -> from <> to -> withdraw_delegation_rewards h from v = Ok (v1, pf) ->
+  raw_reward h to v1 = raw_reward h to v.
+Proof. exact recipient_entitlement_unchanged. Qed.
+Print Assumptions C11_recipient_entitlement.
+
+(* 9. the incoming-redelegation guard, over the call-path facts that harness/gen_c11 reads from
+      TransferShares.Run / TransferFromShares.Run (gen/Gen_C11.v): the model's operations are the entry
+      points those facts describe, and in BOTH the guard is applied to the account whose shares leave *)
+Theorem C11_entry_transfer_agrees : forall s v from to x,
+  exec_entry gen_transfer_facts v from from to x s = exec s (Transfer v from to x).
+Proof. exact entry_transfer_agrees. Qed.
+Print Assumptions C11_entry_transfer_agrees.
+
+Theorem C11_entry_transfer_from_agrees : forall s v spender from to x,
+  exec_entry gen_transfer_from_facts v spender from to x s = exec s (TransferFrom v spender from to x).
+Proof. exact entry_transfer_from_agrees. Qed.
+Print Assumptions C11_entry_transfer_from_agrees.
+
+Theorem C11_guard_both_entry_points :
+  In (ef_sender gen_transfer_facts) (ef_guards gen_transfer_facts) /\
+  In (ef_sender gen_transfer_from_facts) (ef_guards gen_transfer_from_facts) /\
+  (forall s s' v from to x, exec s (Transfer v from to x) = Ok s' -> has_receiving from v s = false) /\
+  (forall s s' v spender from to x,
+     exec s (TransferFrom v spender from to x) = Ok s' -> has_receiving from v s = false).
+Proof. exact guard_both_entry_points. Qed.
+Print Assumptions C11_guard_both_entry_points.
+
 Theorem C11_nonvacuous :
   all_ok (gen_state 2) ex_ops = true /\
-  val_dget (run (gen_state 2) ex_ops) 0 3 = dec_of_int 7 /\
+  val_dget (run (gen_state 2) ex_ops) 0 3 = dec_of_int 7 + dec_of_int (20 * prec) /\
   aget (0, 1, 2) (s_allow (run (gen_state 2) ex_ops)) = 0 /\
-  0 < val_dget (run (gen_state 2) ex_ops) 0 1 /\
+  0 < paid_of 0 (run (gen_state 2) ex_ops) /\ 0 < paid_of 1 (run (gen_state 2) ex_ops) /\
+  0 < paid_of 3 (run (gen_state 2) ex_ops) /\
   step (run (gen_state 2) ex_ops) (Transfer 0 1 1 1) = (run (gen_state 2) ex_ops, false).
 Proof. exact nonvacuous. Qed.
 Print Assumptions C11_nonvacuous.
